@@ -163,7 +163,13 @@ func (g *ExprGen) Gen(t Ty, depth int) *E {
 		case 3:
 			return Call("iff", g.Gen(TBool, d), g.Gen(TStr, d), g.Gen(TStr, d))
 		case 4:
-			return Call([]string{"fs", "fs2", "lower", "concat"}[r.Intn(4)], g.Gen(TStr, d), g.Gen(g.pickTy(), d))
+			switch r.Intn(4) {
+			case 0:
+				return Call("lower", g.Gen(TStr, d))
+			case 1:
+				return Call("concat", g.Gen(TStr, d), g.Gen(TStr, d))
+			}
+			return Call([]string{"fs", "fs2"}[r.Intn(2)], g.Gen(TStr, d), g.Gen(g.pickTy(), d))
 		default:
 			return g.leaf(TStr)
 		}
@@ -179,7 +185,11 @@ func (g *ExprGen) Gen(t Ty, depth int) *E {
 	case 5, 6:
 		return Un([]string{"-", "-", "+"}[r.Intn(3)], g.Gen(TInt, d))
 	case 7:
-		return Idx(g.Gen(TArr, d), g.Gen(TInt, d))
+		ix := g.Gen(TInt, d)
+		if ix.K == "num" && strings.ContainsAny(ix.Lit, ".eE") {
+			ix = Num("1")
+		}
+		return Idx(g.Gen(TArr, d), ix)
 	case 8:
 		return Call("iff", g.Gen(TBool, d), g.Gen(TInt, d), g.Gen(TInt, d))
 	case 9:
@@ -197,8 +207,11 @@ func (g *ExprGen) Gen(t Ty, depth int) *E {
 		}
 		return Call("fi", g.Gen(TInt, d))
 	case 11:
+		if r.Intn(4) == 0 {
+			return Call("coalesce", g.Gen(TInt, d), g.Gen(TInt, d))
+		}
 		n := r.Intn(3)
-		e := Call([]string{"fi", "fi2", "coalesce", "abs"}[r.Intn(4)])
+		e := Call([]string{"fi", "fi2", "abs"}[r.Intn(3)])
 		for i := 0; i <= n; i++ {
 			e.Kids = append(e.Kids, g.Gen(g.pickTy(), d))
 		}
